@@ -6,7 +6,7 @@ from vlib import ToolError
 
 
 def run(ctx):
-    ctx.rule = ("exhaustive: {system, standard} x {strict, not strict} x {known-hosts has the key, has another key, is empty, not given} x {password, key, both, both with the key rejected by the server} = 64 "
+    ctx.rule = ("exhaustive: {system, standard} x {strict, not strict} x {known-hosts has the key, has another key, is empty, not given, cannot be loaded, does not exist} x {password, key, both, both with the key rejected by the server} = 96 "
                 "cells, each one real connection attempt (plus the argv contract for the system transport); every cell is non-trivial; distinct by cell")
     ctx.assumptions += ["TLA+ contributes the decision table and the cell enumeration; the weight of this check is in the conformance run (real ssh handshakes against golang.org/x/crypto/ssh)",
                         "'no known-hosts file available' for the system transport relies on ~/.ssh/known_hosts not listing the loopback server's random port"]
@@ -14,6 +14,12 @@ def run(ctx):
         raise ToolError("/usr/bin/ssh is not available")
     if ctx.replay:
         rp = json.load(open(ctx.replay))["scenario"]
+        if rp.get("kind") == "home":
+            for r in ctx.run_harness("c14home", []):
+                ctx.count()
+                if not r["ok"]:
+                    ctx.violation(r["sig"], r["detail"], rp)
+            return
         for r in ctx.run_harness("c14", [rp]):
             ctx.count()
             if not r["ok"]:
@@ -23,16 +29,24 @@ def run(ctx):
     if r["violated"]:
         ctx.violation("C14:model:table", "HostKey.tla: the table disagrees with the property's wording:\n" + r["stdout"][-1200:], {"kind": "model"})
     scns = r["scn"]
-    if len(scns) != 64:
-        raise ToolError("HostKey produced %d cells, expected 64" % len(scns))
+    if len(scns) != 96:
+        raise ToolError("HostKey produced %d cells, expected 96" % len(scns))
     res = ctx.run_harness("c14", scns, timeout=1800)
-    if len(res) != 64:
-        raise ToolError("c14 answered %d of 64; stderr:\n%s" % (len(res), ctx.last_stderr[-3000:]))
+    if len(res) != 96:
+        raise ToolError("c14 answered %d of 96; stderr:\n%s" % (len(res), ctx.last_stderr[-3000:]))
     for rr in res:
         ctx.count()
         ctx.nontriv(rr["variant"])
         if not rr["ok"]:
             ctx.violation(rr["sig"], rr["detail"], scns[rr["id"]])
+    # the two "system default" file options (resolved through the home directory), in a process of their own
+    for rr in ctx.run_harness("c14home", [], timeout=300):
+        ctx.count()
+        if rr.get("skipped"):
+            continue
+        ctx.nontriv("home/" + rr["variant"])
+        if not rr["ok"]:
+            ctx.violation(rr["sig"], rr["detail"], {"kind": "home", "variant": rr["variant"]})
     ctx.exhaustive = True
     ctx.traces_validated = len(res)
     ctx.sample({"cell": scns[10]})
